@@ -131,6 +131,7 @@ func checkC18(c *Ctx, r *Report) {
 	}
 	checkStatusCodeClasses(c, r, "C18.d")
 	checkOwnDocWins(c, r, "C18.b")
+	checkOffsetsIndexTheirText(c, r, "C18.c", "(core/annotations.Attribute).GetValueRange", "core/validators.getRangeForUrlParam")
 	checkContainerFields(c, r, "C18.a")
 	ruleDecisionInputs(c, r, "C18.c", "core/validators")
 	// every comment line's own position is asked of the file set (a line guessed from its
@@ -1048,5 +1049,51 @@ func checkOwnDocWins(c *Ctx, r *Report, clause string) {
 			viol = fk + " no longer falls back to the enclosing declaration's comment (GenDecl.Doc): a single `type X struct` whose comment go/parser attaches to the declaration would lose its annotations"
 		}
 		r.add(clause, "guardedby", fk+":own-doc-wins", "the enclosing declaration's comment is read only when the entity has none of its own", []string{fk}, sites, viol)
+	}
+}
+
+// checkOffsetsIndexTheirText: an offset found by searching a text (strings.Index and friends)
+// is a position in THAT text: where such an offset bounds a slice of a string (`text[:idx]`, the
+// prefix whose runes give the column), the string sliced is the string searched. An offset found
+// in a suffix or in another copy of the text and applied to the whole measures the wrong prefix.
+func checkOffsetsIndexTheirText(c *Ctx, r *Report, clause string, fns ...string) {
+	w := c.W
+	for _, k := range fns {
+		fi := need(c, r, clause, k)
+		if fi == nil {
+			continue
+		}
+		viol := ""
+		var sites []string
+		n := 0
+		allInstrs(fi.SSA, true, func(_ *ssa.Function, _ *ssa.BasicBlock, _ int, ins ssa.Instruction) {
+			sl, ok := ins.(*ssa.Slice)
+			if !ok {
+				return
+			}
+			if b, isStr := sl.X.Type().Underlying().(*types.Basic); !isStr || b.Kind() != types.String {
+				return
+			}
+			for _, bound := range []ssa.Value{sl.Low, sl.High} {
+				if bound == nil {
+					continue
+				}
+				for _, src := range searchResultsIn(bound, 0, map[ssa.Value]bool{}) {
+					n++
+					sites = append(sites, w.pos(sl.Pos()))
+					args := src.Common().Args
+					if len(args) == 0 {
+						continue
+					}
+					if !equivLoad(stripTrivial(args[0]), stripTrivial(sl.X), 0) {
+						viol = fmt.Sprintf("%s: %s cuts %s at an offset that %s found in another string (%s): the offset is relative to what was searched, not to what is cut - the prefix measured, and with it the column, is wrong", w.pos(sl.Pos()), k, sliceOf(sl.X), calleeName(src), sliceOf(args[0]))
+					}
+				}
+			}
+		})
+		if n == 0 {
+			sites = []string{w.pos(fi.Decl.Pos())}
+		}
+		r.add(clause, "fieldflow", k+":offset-indexes-its-text", k+": an offset found by searching a text is applied to that same text", []string{k}, sites, viol)
 	}
 }
